@@ -5,6 +5,7 @@ import (
 	"flag"
 	"fmt"
 	"os"
+	"os/exec"
 	"runtime/debug"
 	"sort"
 	"strings"
@@ -41,6 +42,9 @@ type RunResult struct {
 	Merges       int            `json:"merges"`
 	Instrs       int            `json:"instrs"`
 	Terms        int            `json:"terms"`
+	FeasQueries  int            `json:"feasibility_queries"`
+	FeasCut      int            `json:"feasibility_pruned"`
+	FeasMs       int64          `json:"feasibility_ms"`
 	Queries      int            `json:"queries"`
 	SolverMs     int64          `json:"solver_ms"`
 	EncodeMs     int64          `json:"encode_ms"`
@@ -68,6 +72,9 @@ func main() {
 	only := flag.String("only", "", "only check obligations whose id contains this")
 	exclude := flag.String("exclude", "", "name=value,...: exclude this assignment of nondets (known finding) from assert/panic queries")
 	verbose := flag.Bool("v", false, "verbose")
+	trace := flag.Bool("trace", false, "trace every interpreted instruction")
+	eager := flag.String("eager", "", "||-separated runtime-panic sites whose unwinding is executed eagerly")
+	eagerAll := flag.Bool("eager-all", false, "execute every potential runtime panic eagerly")
 	flag.Parse()
 
 	res := &RunResult{Harness: *fn, Mode: *mode, T: *T, Unwind: *unwind, Solver: *solver}
@@ -101,6 +108,17 @@ func main() {
 	e.T = *T
 	e.unwind = *unwind
 	e.noPOR = *noPOR
+	e.trace = *trace
+	e.eager = map[string]bool{}
+	for _, s := range strings.Split(*eager, "||") {
+		if s != "" {
+			e.eager[s] = true
+		}
+	}
+	e.noFeas = true
+	if *eagerAll {
+		e.eager = nil
+	}
 	var si *SchedInfo
 	encStart := time.Now()
 	func() {
@@ -124,6 +142,10 @@ func main() {
 	res.Merges = e.merges
 	res.Instrs = e.instrs
 	res.Terms = TS.next
+	res.FeasQueries, res.FeasCut, res.FeasMs = e.feasN, e.feasCut, e.feasMs
+	if e.feas != nil {
+		e.feas.Close()
+	}
 	for _, g := range e.gors {
 		d := ""
 		if g.daemon {
@@ -247,6 +269,72 @@ func main() {
 	var sv2 *Solver
 	if *cross != "" {
 		sv2, _ = NewSolver(*cross, "")
+	}
+	// lazily skipped runtime panics: if any is feasible, re-run with those sites eager
+	if len(e.lazyPanics) > 0 {
+		var gs []*Term
+		for _, o := range e.lazyPanics {
+			gs = append(gs, o.G)
+		}
+		r := sv.Check(append(append([]*Term{}, e.constraints...), Or(gs...)), *timeout, false)
+		if r.Status != "unsat" {
+			bySite := map[string][]*Term{}
+			var order []string
+			for _, o := range e.lazyPanics {
+				if _, ok := bySite[o.ID]; !ok {
+					order = append(order, o.ID)
+				}
+				bySite[o.ID] = append(bySite[o.ID], o.G)
+			}
+			var need []string
+			for _, site := range order {
+				r2 := sv.Check(append(append([]*Term{}, e.constraints...), Or(bySite[site]...)), *timeout, false)
+				if r2.Status != "unsat" {
+					need = append(need, site)
+				}
+			}
+			sv.Close()
+			if len(need) > 0 && len(e.eager) < 40 {
+				all := need
+				for k := range e.eager {
+					all = append(all, k)
+				}
+				var args []string
+				skip := false
+				for _, a := range os.Args[1:] {
+					if skip {
+						skip = false
+						continue
+					}
+					if a == "-eager" {
+						skip = true
+						continue
+					}
+					if strings.HasPrefix(a, "-eager=") {
+						continue
+					}
+					args = append(args, a)
+				}
+				args = append([]string{"-eager", strings.Join(all, "||")}, args...)
+				if *verbose {
+					fmt.Fprintf(os.Stderr, "re-running with eager runtime-panic sites: %v\n", need)
+				}
+				cmd := exec.Command(os.Args[0], args...)
+				cmd.Stdout, cmd.Stderr = os.Stdout, os.Stderr
+				err := cmd.Run()
+				if ee, ok := err.(*exec.ExitError); ok {
+					os.Exit(ee.ExitCode())
+				}
+				if err != nil {
+					os.Exit(3)
+				}
+				os.Exit(0)
+			}
+			res.Status = "inconclusive"
+			res.Inconclusive = "feasible lazily-skipped runtime panics could not be resolved: " + strings.Join(need, "; ")
+			finish()
+			os.Exit(3)
+		}
 	}
 	res.Status = "ok"
 	for _, qq := range qs {
